@@ -160,7 +160,7 @@ def check(ctx):
     run.floor('C02.capture', 3)
 
 
-def _capture(ctx, fn_name: str, label: str, cl):
+def _capture(ctx, fn_name: str, label: str, cl, rule: str = 'C02.capture'):
     run = ctx.run
     caps = cl.captures
     reps = [t[1] for t in caps if t[0] == 'rep']
@@ -183,7 +183,7 @@ def _capture(ctx, fn_name: str, label: str, cl):
         holes = [p for p in r.elem.parts if isinstance(p, Hole)]
         if not (len(holes) == 1 and holes[0].sym.root == r.src.var.root and holes[0].sym.path == ('name',)):
             problems.append(f'captured element is `{r.elem!r}`')
-    run.add('C02.capture', MOD, fn_name, label + ' captures', not problems,
+    run.add(rule, MOD, fn_name, label + ' captures', not problems,
             'deferred closure: [&, <IN formals by value>]' if not problems else '; '.join(problems))
 
 
